@@ -298,6 +298,11 @@ def evaluate(ctx, cases, results, use_model=True):
         kind = '%s:%s' % (c['kind'], impl[0] if impl[0] == 'ok' else impl[1])
         ctx.count(case_key=r['eff'], nontrivial=uc.depth(eff) >= 3, kind=kind)
         mtag = mods[i][0] if mods is not None else None       # 0 unit, 1 UnitError, 2 other exception, 3 declined
+        if mtag is None and r['findings'] and impl[0] == 'err' and ctx.model_ok():      # search stage: ask the model anyway
+            try:
+                mtag = vlib.model_run(FN, [uc.env_sexp() + [eff]])[0][0]
+            except Exception:
+                mtag = None
         for what, text in r['findings']:
             ctx.violation('C04 %s: %s' % (what, text),
                           {'tree': r['eff'], 'name': c.get('name'), 'kind': c['kind'], 'impl': impl,
